@@ -75,6 +75,11 @@ class Config:
         self.user_exc_classes = ("?",)
         self.implicit_raises = True             # fork on primitive raises inside try-blocks with matching handler
         self.sym_classes: Dict[tuple, ClassInfo] = {}  # tok -> in-repo class of a symbolic receiver
+        self.sym_class_fns = []                 # callables tok -> ClassInfo | None
+        self.sym_method_filter = lambda ci, name: True   # which class members of a symbolic receiver are interpreted
+        self.constructor_attrs = set()          # attribute names whose call constructs a fresh object
+        self.emit_chk = False
+        self.guard_pred = None                  # fact keys snapshotted into W/U events
         self.fact_defaults = []                 # callables (key) -> bool | None  (assumption environment)
 
 
